@@ -66,6 +66,7 @@ type Link struct {
 	AmbiguousCancel bool
 	RefusedOpens    []uint64 // ids of header-only envelopes a strict link refused for a done context
 	failedReads     int      // reads attempted after the read side had failed
+	ambigUsed       bool     // AmbiguousCancel: the one delivered-but-failed write has happened
 
 	mu       sync.Mutex
 	inflight []*pendingWrite
@@ -327,7 +328,7 @@ func (l *Link) read(ctx context.Context) (*Rpc, error) {
 			}
 			return nil, err
 		}
-		if l.Cfg.Strict && ctx.Err() != nil {
+		if (l.Cfg.Strict || (l.AmbiguousCancel && l.ambigUsed)) && ctx.Err() != nil {
 			l.mu.Unlock()
 			return nil, ctx.Err()
 		}
@@ -454,6 +455,14 @@ func (l *Link) write(ctx context.Context, rpc *Rpc) error {
 	}
 	pw := &pendingWrite{rpc: carried, done: make(chan struct{})}
 	l.inflight = append(l.inflight, pw)
+	// AmbiguousCancel, deterministic form: the first write that starts with its context
+	// already done goes out all the same and is reported as failed with the context's
+	// error (the request left, the caller saw its context end first); later such writes
+	// are refused like on any transport that looks at the context.
+	ambigNow := l.AmbiguousCancel && !l.ambigUsed && ctx.Err() != nil
+	if ambigNow {
+		l.ambigUsed = true
+	}
 	hooks := l.onWritten
 	free := l.env.Free && !l.stalled
 	l.mu.Unlock()
@@ -462,6 +471,10 @@ func (l *Link) write(ctx context.Context, rpc *Rpc) error {
 	}
 	if free {
 		l.deliver()
+	}
+	if ambigNow {
+		l.env.Note("link.delivered-but-write-failed")
+		return ctx.Err()
 	}
 	if l.Cfg.Cap == 0 {
 		// rendezvous: return only once the envelope was read
